@@ -61,9 +61,11 @@ theorem C02_pack_seconds (ff : PackFilter) (e : FsEntry) (b b' : Bucket) (m : Me
     b' = b.add { m with mtime := ⟨m.mtime.sec, 0⟩ } (if m.kind = .file then e.chash else []) := by
   unfold packEntry at h
   simp only [hf, hk, if_false] at h
-  cases hh : metaToTarHdr { m with mtime := ⟨m.mtime.sec, 0⟩ } e.chash with
-  | none => simp [hh] at h
-  | some x => simp only [hh] at h; injection h with h; exact h.symm
+  split at h
+  · cases h
+  · cases hh : metaToTarHdr { m with mtime := ⟨m.mtime.sec, 0⟩ } e.chash with
+    | none => simp [hh] at h
+    | some x => simp only [hh] at h; injection h with h; exact h.symm
 
 
 /-- a trailing `/` (how directories are written into the header) does not change what `MustRelPath` builds -/
